@@ -1083,10 +1083,11 @@ def check_chain(ck, case, res, seed, tier):
         stale = it_k > 0 and any(o["type"] in ("s-distance", "z-angle") and (o["from_dh"] or o["to_dh"])
                                  for c in P[k]["clusters"] for o in c["obs"])
         sexa = any(f.endswith(":sexagesimal-rounding") for f in seen)
-        sfx = ":approx-replaced-by-observed-coordinates" if overridden else (":stale-dh-reduction" if stale else (
-            ":sexagesimal-rounding" if sexa else ""))
-        sfx_txt = " (approx. replaced by observed coordinates)" if overridden else (" (stale dh reductions)" if stale else (
-            " (angles exported with 4 decimals of an arc second)" if sexa else ""))
+        # qualifiers observed in this round's files come first, the one inferred from preconditions last
+        sfx = ":approx-replaced-by-observed-coordinates" if overridden else (":sexagesimal-rounding" if sexa else (
+            ":stale-dh-reduction" if stale else ""))
+        sfx_txt = " (approx. replaced by observed coordinates)" if overridden else (
+            " (angles exported with 4 decimals of an arc second)" if sexa else (" (stale dh reductions)" if stale else ""))
         seen_c = set()
         for key, msg, okey in netlevel.compare_physical(A, B):
             if key in seen_c:
